@@ -118,11 +118,30 @@ func tbVerdict(tb *recTB) string {
 }
 
 // engine: findBug counters; full checkTB with the shrinker's candidate transcript
+// programs whose minimization makes the recording collapse: a candidate is accepted because a
+// rejected Filter attempt is followed by a retry that consumes the tail of the data.  The
+// shrinker's passes must not keep using positions of the longer recording (defect D9).
+var collapseCorpus = []string{
+	// collapse while minimizing a block (minimizeBlocks)
+	"((draw p (filter (slice (u 0 18446744073709551615) 1 20) (last (or (lt 5) (ge 1000))))) (if (lenge p 6) (draw q (slice (u 0 18446744073709551615) 1 3))) (if (and p (last (ge 5)) (or (lenge 6) (and (lenlt 2) (nth 0 (ge 1000))))) (fatal 1)))",
+	// collapse while swapping two groups (sortGroups)
+	"((draw p (filter (slice (u 0 18446744073709551615) 1 20) (or (lenlt 6) (nth 4 (ge 1000))))) (if (lenge p 6) (draw q (slice (u 0 18446744073709551615) 1 3))) (if (or p (lenge 6) (and (lenlt 2) (nth 0 (eq 1000)))) (fatal 1)))",
+}
+
+const collapseSeeds = 6
+
 func corrEngine(r *rng, c *caseOut, n int, tmp string) {
-	for i := 0; i < n; i++ {
-		prog := r.engineProgram()
+	for i := 0; i < n+len(collapseCorpus)*collapseSeeds; i++ {
+		var prog *SX
 		checks := int(r.pick(1, 2, 5, 20, 100))
 		seed := r.u64() | 1
+		if i < len(collapseCorpus)*collapseSeeds {
+			prog = mustSX(collapseCorpus[i%len(collapseCorpus)])
+			checks = 100
+			c.tag("checktb-collapse-corpus")
+		} else {
+			prog = r.engineProgram()
+		}
 		fl := baseFlags()
 		fl.Checks = checks
 		fl.Seed = seed
@@ -188,6 +207,9 @@ func corrEngine(r *rng, c *caseOut, n int, tmp string) {
 			_ = finalDraws
 			c.add(fmt.Sprintf("checktb %s | %d %d | %s", prog, checks, seed, strings.Join(cands, " ")),
 				fmt.Sprintf("verdict=%s exited=%s rng=%d decisions=%s final=%s", verdict, tb.exited, nrng, decisions, final))
+			// the same run against the model's own passes: every buffer the shrinker ran, in order
+			c.add(fmt.Sprintf("checktbfull %s | %d %d", prog, checks, seed),
+				fmt.Sprintf("verdict=%s rng=%d runs=%s final=%s", verdict, nrng, strings.Join(cands, " "), final))
 			c.tag("checktb-" + strings.SplitN(verdict, ":", 2)[0])
 			if strings.Contains(decisions, "A") {
 				c.tag("checktb-shrunk")
